@@ -113,6 +113,14 @@ class CallGraph:
                         # also bound by a loop: typed only when the element type of the iterable is known (a later `x = cast(T, x)` does not
                         # type the earlier uses)
                         el = self.elem_types(cur, node.iter, _depth + 1) if isinstance(node.target, ast.Name) else []
+                        if not el and isinstance(node.target, ast.Tuple) and isinstance(node.iter, (ast.Tuple, ast.List)) and node.iter.elts and all(
+                                isinstance(row, (ast.Tuple, ast.List)) and len(row.elts) == len(node.target.elts) for row in node.iter.elts):
+                            # `for a, b in ((x, y), (y, x))`: a display of displays - each target takes the types of its column
+                            col = next((i for i, t in enumerate(node.target.elts) if isinstance(t, ast.Name) and t.id == expr.id), None)
+                            if col is not None:
+                                per_row = [self.type_of(cur, row.elts[col], _depth + 1) for row in node.iter.elts]
+                                if all(per_row):
+                                    el = [c for r in per_row for c in r]
                         if not el:
                             return []
                         found += el
